@@ -87,6 +87,11 @@ pub fn claim(src: usize, pos: usize, rule_idx: usize, len: usize) {
     STATE.with(|s| { let mut s = s.borrow_mut(); if s.claims.len() < 1_000_000 { s.claims.insert((src, pos, rule_idx), len); } });
 }
 
+/// a new inline run starts: claims of earlier runs must not be matched against it
+pub fn clear_claims() {
+    STATE.with(|s| s.borrow_mut().claims.clear());
+}
+
 /// the real tokenizer ran `rule_idx` at `pos`: compare with an earlier look-ahead success there
 pub fn real_result(src: usize, pos: usize, rule_idx: usize, extent: Option<usize>) {
     STATE.with(|s| {
